@@ -1012,6 +1012,8 @@ impl YaccParser<'_> {
                                                 ));
                                             }
                                             self.num_newlines += 1;
+                                            // (A newline does not start the end of the comment.)
+                                            continue;
                                         }
                                         '*' => (),
                                         _ => continue,
